@@ -16,3 +16,10 @@ if "<!-- BEGIN:refactortable -->" in s:
     a = s.index("<!-- BEGIN:refactortable -->") + len("<!-- BEGIN:refactortable -->")
     b = s.index("<!-- END:refactortable -->")
     open(p, "w").write(s[:a] + "\n" + t2 + s[b:])
+
+t3 = subprocess.run(["python3", os.path.join(V, "tools/costtable.py")], stdout=subprocess.PIPE, text=True).stdout
+s = open(p).read()
+if "<!-- BEGIN:costtable -->" in s:
+    a = s.index("<!-- BEGIN:costtable -->") + len("<!-- BEGIN:costtable -->")
+    b = s.index("<!-- END:costtable -->")
+    open(p, "w").write(s[:a] + "\n" + t3 + s[b:])
